@@ -8,6 +8,7 @@ import (
 	"fmt"
 	"io"
 	"log"
+	"regexp"
 	"strings"
 	"time"
 
@@ -165,11 +166,12 @@ func Build(s *Spec) (*World, error) {
 		}
 		w.Realms[s.Hops].AddService(s.SPN(k))
 	}
-	for k := 5; k < 5+ExtraSPNs; k++ {
-		w.Realms[s.Hops].AddService(s.SPN(k))
-		for _, r := range w.Realms {
-			r.SvcRealm[s.SPN(k)] = last
-		}
+	// the spare services (pool indices 5..) are not registered one by one: the last realm owns every name of their
+	// form and every realm routes such a name there
+	extra := regexp.MustCompile(fmt.Sprintf(`^HTTP/extra[0-9]+\.r%d\.test$`, s.Hops))
+	w.Realms[s.Hops].AutoService = extra.MatchString
+	for _, r := range w.Realms {
+		r.AutoRoute = func(name string) (string, bool) { return last, extra.MatchString(name) }
 	}
 	for _, l := range s.TGTLives {
 		w.Realms[0].PushTGTLife(life(l))
@@ -272,6 +274,33 @@ func (w *World) FindIssued(tkt messages.Ticket, key types.EncryptionKey) (kdc.Is
 	}
 	if byTicket != nil {
 		return *byTicket, "the session key returned with the ticket is not the one the KDC issued with it"
+	}
+	return kdc.Issued{}, "the returned ticket was never issued by the KDC"
+}
+
+// IssuedIndex indexes every realm's issue log by ticket bytes (for histories with thousands of tickets).
+func (w *World) IssuedIndex() map[string][]kdc.Issued {
+	idx := map[string][]kdc.Issued{}
+	for _, is := range w.IssuedAll() {
+		idx[string(is.Ticket)] = append(idx[string(is.Ticket)], is)
+	}
+	return idx
+}
+
+// FindIssuedIn is FindIssued over an index.
+func FindIssuedIn(idx map[string][]kdc.Issued, tkt messages.Ticket, key types.EncryptionKey) (kdc.Issued, string) {
+	b, err := tkt.Marshal()
+	if err != nil {
+		return kdc.Issued{}, "returned ticket cannot be marshalled: " + err.Error()
+	}
+	l := idx[string(b)]
+	for _, is := range l {
+		if is.Session.EType == key.KeyType && bytes.Equal(is.Session.Value, key.KeyValue) {
+			return is, ""
+		}
+	}
+	if len(l) > 0 {
+		return l[len(l)-1], "the session key returned with the ticket is not the one the KDC issued with it"
 	}
 	return kdc.Issued{}, "the returned ticket was never issued by the KDC"
 }
